@@ -56,7 +56,7 @@ def gen_world(rng: random.Random, parse_friendly: bool) -> World:
     tables = []
     used = set()
     exotic = [] if parse_friendly else ["with space", "ünï", "x-y", "Select"]
-    for k in range(rng.randint(1, 4)):
+    for k in range(rng.randint(1, 4) if rng.random() < 0.93 else rng.randint(7, 11)):
         while True:
             nm, sc = rng.choice(NAME_POOL + exotic), rng.choice(SCHEMAS)
             if (nm, sc) not in used:
